@@ -262,7 +262,8 @@ func init() {
 												}
 												ks = append(ks, carrier{tr, eio, false, false})
 												if tr == "polling" {
-													ks = append(ks, carrier{tr, eio, true, false}, carrier{tr, eio, false, true})
+													// (a revision-3 JSONP client asks for base64: binary cannot travel in a script)
+													ks = append(ks, carrier{tr, eio, true, false}, carrier{tr, eio, eio == 3, true})
 												} else if c.Thorough() {
 													ks = append(ks, carrier{tr, eio, true, false})
 												}
